@@ -1,6 +1,7 @@
 import CasbinModel.Lemmas.Links
 import CasbinModel.Props.C03
 import CasbinModel.Lemmas.Store
+import CasbinModel.Lemmas.AutoSave
 /-!
 # C05 — The role graph always reflects the stored grouping rules   (*partial*, see below)
 
@@ -590,6 +591,9 @@ inductive GOp where
   | loadFiltered (fp fg : List String)
   | clear
   | build
+  | setRm (rm0 : RoleMgr String)
+  | setModel (defs : Defs) (store : Store)
+  | setAdapter (a : AdapterSt)
 
 def GOp.apply (e : Enforcer) : GOp → Enforcer
   | .add sec pt rule => (e.addPolicy sec pt rule).1
@@ -601,6 +605,9 @@ def GOp.apply (e : Enforcer) : GOp → Enforcer
   | .loadFiltered fp fg => (e.loadFilteredPolicy fp fg).1
   | .clear => e.clearPolicy.1
   | .build => e.buildRoleLinks.1
+  | .setRm rm0 => (e.setRoleManagerWith rm0).1
+  | .setModel defs store => (e.setModel defs store).1
+  | .setAdapter a => (e.setAdapter a).1
 
 /-- the calls the invariant is stated for: section `p` or `g`, and a grouping rule handed to an addition has
 at least as many fields as the role definition -/
@@ -614,6 +621,9 @@ def GOp.Ok (e : Enforcer) : GOp → Prop
   | .loadFiltered _ _ => True
   | .clear => True
   | .build => True
+  | .setRm _ => True
+  | .setModel _ store => ∃ d, store.g = [d] ∧ (d.arity = 2 ∨ d.arity = 3)
+  | .setAdapter _ => True
 
 theorem linkUpdate_flags (x : Enforcer) (c : Bool) (sec pt : String) (ins : Bool) (rules : List Rule) (ret : Res) :
     (x.linkUpdate c sec pt ins rules ret).1.autoSave = x.autoSave ∧
@@ -785,11 +795,10 @@ theorem gsync_build (e : Enforcer) (h : GSync e) : GSync e.buildRoleLinks.1 := b
 arrives and links, the graph is rebuilt from the new rules; if the adapter fails, delivers only a part, or a
 delivered grouping rule is too short to be linked, the previous rules come back and the graph is rebuilt from
 them -/
-theorem gsync_finishLoad (e : Enforcer) (h : GSync e) (hb : e.autoBuild = true) (a : AdapterSt) (s : Store)
-    (ok : Option Unit) (hs : ∀ d, e.store.g = [d] → GShape s d.key d.arity) :
+theorem gsync_finishLoad_pre (e : Enforcer) (d : PolDef) (hg : e.store.g = [d]) (ha : d.arity = 2 ∨ d.arity = 3)
+    (hwf : WFRules d.arity d.policy) (hb : e.autoBuild = true) (a : AdapterSt) (s : Store)
+    (ok : Option Unit) (hshape : GShape s d.key d.arity) :
     GSync (e.finishLoad e.store a s ok).1 := by
-  obtain ⟨d, hg, ha, hwf, hsync, hw⟩ := h
-  have hshape := hs d hg
   -- restoring the previous rules and rebuilding re-establishes the invariant, whatever the graph holds by then
   have hrestore : ∀ (x : Enforcer), GSync ({ x with store := e.store } : Enforcer).buildRoleLinks.1 := by
     intro x
@@ -828,6 +837,27 @@ theorem gsync_finishLoad (e : Enforcer) (h : GSync e) (hb : e.autoBuild = true) 
           rw [this]; exact hx1
         simp only [he2, if_true]
         exact hrestore e2
+
+theorem gsync_finishLoad (e : Enforcer) (h : GSync e) (hb : e.autoBuild = true) (a : AdapterSt) (s : Store)
+    (ok : Option Unit) (hs : ∀ d, e.store.g = [d] → GShape s d.key d.arity) :
+    GSync (e.finishLoad e.store a s ok).1 := by
+  obtain ⟨d, hg, ha, hwf, _, _⟩ := h
+  exact gsync_finishLoad_pre e d hg ha hwf hb a s ok (hs d hg)
+
+/-- a load re-establishes the invariant from **any** graph, as long as the stored grouping rules can be linked: every path
+of the load ends in a full rebuild -/
+theorem gsync_load_pre (e : Enforcer) (d : PolDef) (hg : e.store.g = [d]) (ha : d.arity = 2 ∨ d.arity = 3)
+    (hwf : WFRules d.arity d.policy) (hb : e.autoBuild = true) : GSync e.loadPolicy.1 := by
+  unfold Enforcer.loadPolicy
+  apply gsync_finishLoad_pre e d hg ha hwf hb
+  have hc : GShape e.store.clear d.key d.arity := gshape_clear _ _ _ ⟨d, hg, rfl, rfl⟩
+  unfold AdapterSt.load
+  simp only
+  split
+  · exact hc
+  · exact hc
+  · exact gshape_truncate _ _ _ (gshape_loadRecords _ _ _ _ hc) _
+  · exact gshape_loadRecords _ _ _ _ hc
 
 theorem gsync_load (e : Enforcer) (h : GSync e) (hb : e.autoBuild = true) : GSync e.loadPolicy.1 := by
   unfold Enforcer.loadPolicy
@@ -928,9 +958,74 @@ theorem flags_clear (e : Enforcer) (hs : e.autoSave = false) (hb : e.autoBuild =
       unfold Enforcer.emit
       split <;> exact ⟨h1, h2⟩
 
+/-- `set_model` with a model that has one role definition of two or three places: the new definitions come with an
+empty policy, the role functions are registered and everything is reloaded through the adapter - the invariant holds
+afterwards **whatever the role graph held before** and whatever the adapter delivers -/
+theorem gsync_setModel (e : Enforcer) (hb : e.autoBuild = true) (defs : Defs) (store : Store) (d : PolDef)
+    (hg : store.g = [d]) (ha : d.arity = 2 ∨ d.arity = 3) :
+    GSync (e.setModel defs store).1 ∧ (e.setModel defs store).1.autoSave = e.autoSave ∧
+    (e.setModel defs store).1.autoBuild = true := by
+  have hgc : store.clear.g = [{ d with policy := [] }] := by simp [Store.clear, hg]
+  have hreg : registerG e.gfuncs store.clear.g = some (e.gfuncs ++ [(d.key, d.arity)]) := by
+    rw [hgc]
+    unfold registerG
+    have : (d.arity = 2 || d.arity = 3) = true := by rcases ha with h | h <;> simp [h]
+    simp only []
+    rw [if_pos this]
+    rfl
+  unfold Enforcer.setModel
+  simp only []
+  have hreg' : registerG ({ e with defs := defs, store := store.clear } : Enforcer).gfuncs
+      ({ e with defs := defs, store := store.clear } : Enforcer).store.g = some (e.gfuncs ++ [(d.key, d.arity)]) := hreg
+  rw [hreg']
+  simp only []
+  have hx1 : ({ e with defs := defs, store := store.clear, gfuncs := e.gfuncs ++ [(d.key, d.arity)] } : Enforcer).store.g =
+      [{ d with policy := [] }] := hgc
+  have hx2 : ({ e with defs := defs, store := store.clear, gfuncs := e.gfuncs ++ [(d.key, d.arity)] } : Enforcer).autoBuild = true := hb
+  have hx3 : ({ e with defs := defs, store := store.clear, gfuncs := e.gfuncs ++ [(d.key, d.arity)] } : Enforcer).autoSave = e.autoSave := rfl
+  generalize ({ e with defs := defs, store := store.clear, gfuncs := e.gfuncs ++ [(d.key, d.arity)] } : Enforcer) = x at hx1 hx2 hx3 ⊢
+  refine ⟨gsync_load_pre x { d with policy := [] } hx1 ha (by intro r hr; cases hr) hx2, ?_, ?_⟩
+  · obtain ⟨f1, _⟩ := flags_finishLoad x hx2 x.store (x.adapter.load x.store.clear).1 (x.adapter.load x.store.clear).2.1
+      (x.adapter.load x.store.clear).2.2
+    show x.loadPolicy.1.autoSave = e.autoSave
+    unfold Enforcer.loadPolicy; rw [f1]; exact hx3
+  · obtain ⟨_, f2⟩ := flags_finishLoad x hx2 x.store (x.adapter.load x.store.clear).1 (x.adapter.load x.store.clear).2.1
+      (x.adapter.load x.store.clear).2.2
+    show x.loadPolicy.1.autoBuild = true
+    unfold Enforcer.loadPolicy; exact f2
+
+/-- `set_role_manager` with **any** manager - a fresh one, one kept from earlier, the installed one edited by hand: with
+auto-build on it is emptied and rebuilt from the stored grouping rules, so the invariant holds again whatever it held -/
+theorem gsync_setRm (e : Enforcer) (h : GSync e) (hb : e.autoBuild = true) (rm0 : RoleMgr String) :
+    GSync (e.setRoleManagerWith rm0).1 ∧ (e.setRoleManagerWith rm0).1.autoSave = e.autoSave ∧
+    (e.setRoleManagerWith rm0).1.autoBuild = true ∧ (e.setRoleManagerWith rm0).1.store = e.store := by
+  obtain ⟨d, hg, ha, hwf, _, _⟩ := h
+  have hreg : registerG e.gfuncs e.store.g = some (e.gfuncs ++ [(d.key, d.arity)]) := by
+    rw [hg]
+    unfold registerG
+    have : (d.arity = 2 || d.arity = 3) = true := by rcases ha with h | h <;> simp [h]
+    rw [if_pos this]
+    rfl
+  obtain ⟨rm', h1, h2, h3⟩ := rebuild_synced d.arity ha rm0 d rfl hwf
+  unfold Enforcer.setRoleManagerWith
+  simp only []
+  have hreg' : registerG ({ e with rm := rm0 } : Enforcer).gfuncs ({ e with rm := rm0 } : Enforcer).store.g =
+      some (e.gfuncs ++ [(d.key, d.arity)]) := hreg
+  rw [hreg']
+  simp only []
+  have hb' : ({ e with rm := rm0, gfuncs := e.gfuncs ++ [(d.key, d.arity)] } : Enforcer).autoBuild = true := hb
+  rw [if_pos hb']
+  have hbuild : ({ e with rm := rm0, gfuncs := e.gfuncs ++ [(d.key, d.arity)] } : Enforcer).buildRoleLinks =
+      ({ e with rm := rm', gfuncs := e.gfuncs ++ [(d.key, d.arity)] }, none) := by
+    unfold Enforcer.buildRoleLinks
+    simp only [hg, h1]
+  rw [hbuild]
+  exact ⟨⟨d, hg, ha, hwf, h2, h3⟩, rfl, hb, rfl⟩
+
 /-- **the graph reflects the stored grouping rules after every history** of management calls — single and batch additions and removals, filtered
 removals, `load_policy`, `load_filtered_policy` (whatever the adapter delivers, failures included), `clear_policy` and
-explicit rebuilds (auto-build on; the adapter not involved: auto-save off —
+explicit rebuilds, `set_role_manager` with any manager, `set_model` (one role definition of two or three places) and
+`set_adapter` (auto-build on; the adapter not involved in the management calls: auto-save off —
 with auto-save on an accepted call runs the same model-side code and a vetoed one changes nothing, see C10) -/
 theorem gsync_history (ops : List GOp) (e : Enforcer) (h : GSync e) (hs : e.autoSave = false) (hb : e.autoBuild = true)
     (hok : ∀ (pre : List GOp) (op : GOp) (post : List GOp), ops = pre ++ op :: post → op.Ok (pre.foldl GOp.apply e)) :
@@ -993,6 +1088,181 @@ theorem gsync_history (ops : List GOp) (e : Enforcer) (h : GSync e) (hs : e.auto
       exact ih _ (gsync_clear e h hs hb) f1 f2 hnext
     | build =>
       exact ih _ (gsync_build e h) hs hb hnext
+    | setRm rm0 =>
+      obtain ⟨g1, g2, g3, _⟩ := gsync_setRm e h hb rm0
+      exact ih _ g1 (by show (e.setRoleManagerWith rm0).1.autoSave = false; rw [g2]; exact hs) g3 hnext
+    | setModel defs store =>
+      obtain ⟨d, hg, ha⟩ := hop
+      obtain ⟨g1, g2, g3⟩ := gsync_setModel e hb defs store d hg ha
+      exact ih _ g1 (by show (e.setModel defs store).1.autoSave = false; rw [g2]; exact hs) g3 hnext
+    | setAdapter a =>
+      have key : ∀ x : Enforcer, GSync x → x.autoBuild = true → x.autoSave = false →
+          GSync x.loadPolicy.1 ∧ x.loadPolicy.1.autoSave = false ∧ x.loadPolicy.1.autoBuild = true := by
+        intro x hx hbx hsx
+        obtain ⟨f1, f2⟩ := flags_finishLoad x hbx x.store (x.adapter.load x.store.clear).1 (x.adapter.load x.store.clear).2.1
+          (x.adapter.load x.store.clear).2.2
+        exact ⟨gsync_load x hx hbx, by unfold Enforcer.loadPolicy; rw [f1]; exact hsx, by unfold Enforcer.loadPolicy; exact f2⟩
+      obtain ⟨g1, g2, g3⟩ := key ({ e with adapter := a } : Enforcer) h hb hs
+      exact ih _ g1 g2 g3 hnext
+
+/-! ### Auto-save on or off -/
+
+theorem single_ok (e : Enforcer) (op : GOp) (h : op.Ok e) :
+    ∀ (pre : List GOp) (op' : GOp) (post : List GOp), [op] = pre ++ op' :: post → op'.Ok (pre.foldl GOp.apply e) := by
+  intro pre op' post heq
+  cases pre with
+  | nil =>
+    simp only [List.nil_append, List.cons.injEq] at heq
+    obtain ⟨rfl, _⟩ := heq
+    exact h
+  | cons p pre => simp at heq
+
+/-- one call with auto-save off: the invariant and both switches -/
+theorem gstep_off (e : Enforcer) (h : GSync e) (hs : e.autoSave = false) (hb : e.autoBuild = true) (op : GOp) (hok : op.Ok e) :
+    GSync (op.apply e) ∧ (op.apply e).autoSave = false ∧ (op.apply e).autoBuild = true := by
+  refine ⟨gsync_history [op] e h hs hb (single_ok e op hok), ?_⟩
+  cases op with
+  | add sec pt rule => obtain ⟨f1, f2⟩ := flags_add e sec pt rule hs; exact ⟨f1, by show (e.addPolicy sec pt rule).1.autoBuild = true; rw [f2]; exact hb⟩
+  | remove sec pt rule => obtain ⟨f1, f2⟩ := flags_remove e sec pt rule hs; exact ⟨f1, by show (e.removePolicy sec pt rule).1.autoBuild = true; rw [f2]; exact hb⟩
+  | addMany sec pt rules => obtain ⟨f1, f2⟩ := flags_addMany e sec pt rules hs; exact ⟨f1, by show (e.addPolicies sec pt rules).1.autoBuild = true; rw [f2]; exact hb⟩
+  | removeMany sec pt rules => obtain ⟨f1, f2⟩ := flags_removeMany e sec pt rules hs; exact ⟨f1, by show (e.removePolicies sec pt rules).1.autoBuild = true; rw [f2]; exact hb⟩
+  | removeFiltered sec pt idx vals => obtain ⟨f1, f2⟩ := flags_removeFiltered e sec pt idx vals hs; exact ⟨f1, by show (e.removeFiltered sec pt idx vals).1.autoBuild = true; rw [f2]; exact hb⟩
+  | load =>
+    obtain ⟨f1, f2⟩ := flags_finishLoad e hb e.store (e.adapter.load e.store.clear).1 (e.adapter.load e.store.clear).2.1
+      (e.adapter.load e.store.clear).2.2
+    exact ⟨by show e.loadPolicy.1.autoSave = false; unfold Enforcer.loadPolicy; rw [f1]; exact hs,
+      by show e.loadPolicy.1.autoBuild = true; unfold Enforcer.loadPolicy; exact f2⟩
+  | loadFiltered fp fg =>
+    obtain ⟨f1, f2⟩ := flags_finishLoad e hb e.store (e.adapter.loadFiltered e.store.clear fp fg).1
+      (e.adapter.loadFiltered e.store.clear fp fg).2.1 (e.adapter.loadFiltered e.store.clear fp fg).2.2
+    exact ⟨by show (e.loadFilteredPolicy fp fg).1.autoSave = false; unfold Enforcer.loadFilteredPolicy; rw [f1]; exact hs,
+      by show (e.loadFilteredPolicy fp fg).1.autoBuild = true; unfold Enforcer.loadFilteredPolicy; exact f2⟩
+  | clear => exact flags_clear e hs hb
+  | build => exact ⟨hs, hb⟩
+  | setRm rm0 =>
+    obtain ⟨_, g2, g3, _⟩ := gsync_setRm e h hb rm0
+    exact ⟨by show (e.setRoleManagerWith rm0).1.autoSave = false; rw [g2]; exact hs, g3⟩
+  | setModel defs store =>
+    obtain ⟨d, hg, ha⟩ := hok
+    obtain ⟨_, g2, g3⟩ := gsync_setModel e hb defs store d hg ha
+    exact ⟨by show (e.setModel defs store).1.autoSave = false; rw [g2]; exact hs, g3⟩
+  | setAdapter a =>
+    obtain ⟨f1, f2⟩ := flags_finishLoad ({ e with adapter := a } : Enforcer) hb e.store
+      (a.load e.store.clear).1 (a.load e.store.clear).2.1 (a.load e.store.clear).2.2
+    exact ⟨by show ({ e with adapter := a } : Enforcer).loadPolicy.1.autoSave = false; unfold Enforcer.loadPolicy; rw [f1]; exact hs,
+      by show ({ e with adapter := a } : Enforcer).loadPolicy.1.autoBuild = true; unfold Enforcer.loadPolicy; exact f2⟩
+
+/-- a management call made with auto-save on, given what `Lemmas/AutoSave.lean` says about it -/
+theorem gstep_on_mgmt (e : Enforcer) (h : GSync e) (hb : e.autoBuild = true) (op : GOp) (hok : op.Ok e) (y : Enforcer)
+    (hcase : (∃ a, y = ({ e with adapter := a } : Enforcer)) ∨
+      (∃ a, y = (op.apply (({ e with adapter := a } : Enforcer).withSave false)).withSave true)) :
+    GSync y ∧ y.autoBuild = true := by
+  rcases hcase with ⟨a, rfl⟩ | ⟨a, rfl⟩
+  · exact ⟨h, hb⟩
+  · have hx : GSync (({ e with adapter := a } : Enforcer).withSave false) := h
+    obtain ⟨g1, _, g3⟩ := gstep_off _ hx rfl hb op hok
+    exact ⟨g1, g3⟩
+
+/-- the model-side part of `clear_policy`, whatever the auto-save switch says -/
+theorem gsync_clearGo (x : Enforcer) (h : GSync x) (hb : x.autoBuild = true) (r : Enforcer × Option ErrKind)
+    (hr : r = (if ({ x with store := x.store.clear } : Enforcer).autoBuild then ({ x with store := x.store.clear } : Enforcer).buildRoleLinks
+      else (({ x with store := x.store.clear } : Enforcer), none))) :
+    GSync (match r with
+      | (e, r) => match r with
+        | some k => (e, Res.err k)
+        | none => (e.emit .clearPolicy, Res.unit)).1 ∧
+    (match r with
+      | (e, r) => match r with
+        | some k => (e, Res.err k)
+        | none => (e.emit .clearPolicy, Res.unit)).1.autoBuild = true := by
+  obtain ⟨d, hg, ha, hwf, hsync, hw⟩ := h
+  have hb' : ({ x with store := x.store.clear } : Enforcer).autoBuild = true := hb
+  rw [if_pos hb'] at hr
+  have hx2 : GShape ({ x with store := x.store.clear } : Enforcer).store d.key d.arity := gshape_clear _ _ _ ⟨d, hg, rfl, rfl⟩
+  have hx3 : ({ x with store := x.store.clear } : Enforcer).store.g = [{ d with policy := [] }] := by
+    simp [Store.clear, hg]
+  generalize ({ x with store := x.store.clear } : Enforcer) = y at hb' hx2 hx3 hr
+  have hyb : y.buildRoleLinks.1.autoBuild = true := by unfold Enforcer.buildRoleLinks; exact hb'
+  rcases gsync_of_build y d.key d.arity ha hx2 with ⟨h1, h2⟩ | ⟨k, hk⟩
+  · obtain ⟨e2, res⟩ := r
+    have hres : res = none := by rw [← hr] at h1; exact h1
+    subst hres
+    have he2 : e2 = y.buildRoleLinks.1 := by rw [← hr]
+    subst he2
+    exact ⟨gsync_emit _ _ h2, by rw [(emit_rm_store _ _).2.2]; exact hyb⟩
+  · exfalso
+    obtain ⟨rm', h1, _, _⟩ := rebuild_synced d.arity ha y.rm { d with policy := [] } rfl (by intro r hr; cases hr)
+    unfold Enforcer.buildRoleLinks at hk
+    simp only at hk
+    rw [hx3, h1] at hk
+    cases hk
+
+/-- `clear_policy` keeps the invariant with auto-save on too: the adapter fails (nothing is cleared) or the rules and
+links go together -/
+theorem gsync_clear_any (e : Enforcer) (h : GSync e) (hb : e.autoBuild = true) :
+    GSync e.clearPolicy.1 ∧ e.clearPolicy.1.autoBuild = true := by
+  unfold Enforcer.clearPolicy
+  split
+  · split
+    · exact ⟨h, hb⟩
+    · rename_i a _
+      exact gsync_clearGo ({ e with adapter := a } : Enforcer) h hb _ rfl
+  · exact gsync_clearGo e h hb _ rfl
+
+/-- one call, auto-save on or off, whatever the adapter answers -/
+theorem gstep_any (e : Enforcer) (h : GSync e) (hb : e.autoBuild = true) (op : GOp) (hok : op.Ok e) :
+    GSync (op.apply e) ∧ (op.apply e).autoBuild = true := by
+  by_cases hs : e.autoSave = true
+  · cases op with
+    | add sec pt rule => exact gstep_on_mgmt e h hb (.add sec pt rule) hok _ (addPolicy_on e hs sec pt rule)
+    | remove sec pt rule => exact gstep_on_mgmt e h hb (.remove sec pt rule) hok _ (removePolicy_on e hs sec pt rule)
+    | addMany sec pt rules => exact gstep_on_mgmt e h hb (.addMany sec pt rules) hok _ (addPolicies_on e hs sec pt rules)
+    | removeMany sec pt rules => exact gstep_on_mgmt e h hb (.removeMany sec pt rules) hok _ (removePolicies_on e hs sec pt rules)
+    | removeFiltered sec pt idx vals =>
+      exact gstep_on_mgmt e h hb (.removeFiltered sec pt idx vals) hok _ (removeFiltered_on e hs sec pt idx vals)
+    | load =>
+      obtain ⟨_, f2⟩ := flags_finishLoad e hb e.store (e.adapter.load e.store.clear).1 (e.adapter.load e.store.clear).2.1
+        (e.adapter.load e.store.clear).2.2
+      exact ⟨gsync_load e h hb, by show e.loadPolicy.1.autoBuild = true; unfold Enforcer.loadPolicy; exact f2⟩
+    | loadFiltered fp fg =>
+      obtain ⟨_, f2⟩ := flags_finishLoad e hb e.store (e.adapter.loadFiltered e.store.clear fp fg).1
+        (e.adapter.loadFiltered e.store.clear fp fg).2.1 (e.adapter.loadFiltered e.store.clear fp fg).2.2
+      exact ⟨gsync_loadFiltered e h hb fp fg,
+        by show (e.loadFilteredPolicy fp fg).1.autoBuild = true; unfold Enforcer.loadFilteredPolicy; exact f2⟩
+    | clear => exact gsync_clear_any e h hb
+    | build => exact ⟨gsync_build e h, hb⟩
+    | setRm rm0 =>
+      obtain ⟨g1, _, g3, _⟩ := gsync_setRm e h hb rm0
+      exact ⟨g1, g3⟩
+    | setModel defs store =>
+      obtain ⟨d, hg, ha⟩ := hok
+      obtain ⟨g1, _, g3⟩ := gsync_setModel e hb defs store d hg ha
+      exact ⟨g1, g3⟩
+    | setAdapter a =>
+      obtain ⟨_, f2⟩ := flags_finishLoad ({ e with adapter := a } : Enforcer) hb e.store
+        (a.load e.store.clear).1 (a.load e.store.clear).2.1 (a.load e.store.clear).2.2
+      exact ⟨gsync_load ({ e with adapter := a } : Enforcer) h hb,
+        by show ({ e with adapter := a } : Enforcer).loadPolicy.1.autoBuild = true; unfold Enforcer.loadPolicy; exact f2⟩
+  · have hs' : e.autoSave = false := by cases hh : e.autoSave <;> simp_all
+    obtain ⟨g1, _, g3⟩ := gstep_off e h hs' hb op hok
+    exact ⟨g1, g3⟩
+
+/-- **the invariant over every history, auto-save on or off and whatever the adapter answers** (accepts, vetoes, fails):
+the role graph holds exactly the links the stored grouping rules imply after any sequence of the twelve kinds of call -/
+theorem gsync_history_any (ops : List GOp) (e : Enforcer) (h : GSync e) (hb : e.autoBuild = true)
+    (hok : ∀ (pre : List GOp) (op : GOp) (post : List GOp), ops = pre ++ op :: post → op.Ok (pre.foldl GOp.apply e)) :
+    GSync (ops.foldl GOp.apply e) := by
+  induction ops generalizing e with
+  | nil => exact h
+  | cons op ops ih =>
+    have hop := hok [] op ops rfl
+    simp only [List.foldl_nil] at hop
+    simp only [List.foldl_cons]
+    obtain ⟨g1, g2⟩ := gstep_any e h hb op hop
+    apply ih _ g1 g2
+    intro pre op' post heq
+    have := hok (op :: pre) op' post (by rw [heq]; rfl)
+    simpa using this
 
 /-- **construction over a filtered adapter** (the model handed in already holds rules, regression for F22):
 the constructor does not load, keeps those rules and builds their links — the invariant holds from the start -/
@@ -1066,5 +1336,27 @@ example : GSync ([GOp.add "g" "g" ["alice", "admin"], .add "g" "g" ["alice", "ad
     simp at hd; subst hd; decide
   · obtain ⟨rfl, rfl, rfl, _⟩ := heq; exact Or.inr rfl
   · obtain ⟨rfl, rfl, rfl, rfl, _⟩ := heq; exact Or.inl rfl
+
+/-- the reconfiguration calls meet their side conditions on the same enforcer: a hand-edited manager handed back, a model
+swap, an adapter swap -/
+example : GSync ([GOp.setRm ((RoleMgr.new 10).addLink "stray" "admin" "DEFAULT"),
+    .setModel ⟨[], [], []⟩ ⟨[], [demoDef [["x", "y"]]]⟩, .setAdapter (AdapterSt.mk0 .memory), .clear].foldl GOp.apply demoEnf) := by
+  apply gsync_history _ _ demo_gsync rfl rfl
+  intro pre op post heq
+  rcases pre with _ | ⟨a, _ | ⟨b, _ | ⟨c, _ | ⟨d', pre⟩⟩⟩⟩ <;> simp at heq
+  · obtain ⟨rfl, _⟩ := heq; exact True.intro
+  · obtain ⟨rfl, rfl, _⟩ := heq; exact ⟨demoDef [["x", "y"]], rfl, Or.inl rfl⟩
+  · obtain ⟨rfl, rfl, rfl, _⟩ := heq; exact True.intro
+  · obtain ⟨rfl, rfl, rfl, rfl, _⟩ := heq; exact True.intro
+
+/-- … and with auto-save on over a memory adapter -/
+def demoEnfOn : Enforcer := { demoEnf with autoSave := true, adapter := AdapterSt.mk0 .memory }
+example : GSync ([GOp.add "g" "g" ["alice", "admin"], .clear].foldl GOp.apply demoEnfOn) := by
+  have h0 : GSync demoEnfOn := demo_gsync
+  apply gsync_history_any _ demoEnfOn h0 rfl
+  intro pre op post heq
+  rcases pre with _ | ⟨a, _ | ⟨b, pre⟩⟩ <;> simp at heq
+  · obtain ⟨rfl, _⟩ := heq; exact Or.inr ⟨rfl, by intro d hd; simp [demoEnfOn, demoEnf] at hd; subst hd; decide⟩
+  · obtain ⟨rfl, rfl, _⟩ := heq; exact True.intro
 
 end Casbin.C05
